@@ -2,13 +2,14 @@
 (* Anti-vacuity run for RedisStop (see ListenerWin). *)
 EXTENDS RedisStop
 
-ASSUME TLCSet(101, FALSE) /\ TLCSet(102, FALSE)
+ASSUME TLCSet(101, FALSE) /\ TLCSet(102, FALSE) /\ TLCSet(103, FALSE)
 
 RecordWindows ==
   /\ W_StopWithSilentBackend => TLCSet(101, TRUE)
   /\ W_StopWhileRefreshWaits => TLCSet(102, TRUE)
+  /\ W_StopWithFullSessionQueue => TLCSet(103, TRUE)
 
 AllWindowsReached ==
-  IF TLCGet(101) /\ TLCGet(102) THEN TRUE
-  ELSE Print(<<"@@UNREACHED", TLCGet(101), TLCGet(102)>>, FALSE)
+  IF TLCGet(101) /\ TLCGet(102) /\ TLCGet(103) THEN TRUE
+  ELSE Print(<<"@@UNREACHED", TLCGet(101), TLCGet(102), TLCGet(103)>>, FALSE)
 =============================================================================
